@@ -770,13 +770,13 @@ func doJSONBytes(c *vlib.Ctx, b []byte, verbose bool) {
 func runJSONMalformed(c *vlib.Ctx) {
 	ad := adV{Prev: mkCid("prev", 0x0129, multihash.SHA2_256), Provider: "prov", Addrs: []string{"/ip4/1.2.3.4/tcp/1"}, Sig: []byte{1, 2}, Entries: mkCid("e", 0x0129, multihash.SHA2_256), Ctx: []byte("c"), Meta: []byte{0x80},
 		Ext: &extV{Provs: []provV{{ID: "x", Addrs: []string{"a"}, Meta: []byte{1}, Sig: []byte{2}}}, Override: true}}
-	n, _ := ad.toGo(0).ToNode()
+	n, _ := adNode(ad.toGo(0))
 	var buf bytes.Buffer
 	if err := dagjson.Encode(n, &buf); err != nil {
 		panic(err)
 	}
 	adJSON := buf.Bytes()
-	chn, _ := chV{Entries: [][]byte{mustSum("a"), {1, 2, 3}}, Next: mkCid("n", 0x0129, multihash.SHA2_256)}.toGo(0).ToNode()
+	chn, _ := chNode(chV{Entries: [][]byte{mustSum("a"), {1, 2, 3}}, Next: mkCid("n", 0x0129, multihash.SHA2_256)}.toGo(0))
 	buf = bytes.Buffer{}
 	_ = dagjson.Encode(chn, &buf)
 	chJSON := append([]byte{}, buf.Bytes()...)
@@ -987,7 +987,7 @@ func runEntryPoints(c *vlib.Ctx) {
 		"ad-null":    func() error { _, err := schema.UnwrapAdvertisement(datamodel.Null); return err },
 		"chunk-null": func() error { _, err := schema.UnwrapEntryChunk(datamodel.Null); return err },
 		"ad-from-chunk-node": func() error {
-			n, _ := (schema.EntryChunk{}).ToNode()
+			n, _ := chNode(schema.EntryChunk{})
 			_, err := schema.UnwrapAdvertisement(n)
 			return err
 		},
